@@ -174,6 +174,29 @@ func VerifC16Relay(depth, mask, optBits int) {
 		gi, gerr := ro.GetInnerMessage()
 		verifAssert(gerr == nil && gi == inner, "inner-message-found")
 	}
+	if depth > 0 {
+		// the innermost message is found again after it was exchanged at the deepest level
+		// (lookups made earlier on the outer levels must not be remembered)
+		_, _ = outer.GetInnerMessage()
+		_, _ = GetTransactionID(outer)
+		deepest, derr := DecapsulateRelayIndex(outer, -1)
+		verifAssert(derr == nil, "index-minus-one-ok")
+		if dr, ok := deepest.(*RelayMessage); ok && derr == nil {
+			other := &Message{MessageType: MessageTypeReply}
+			copy(other.TransactionID[:], verifBytes("other.xid", 3))
+			dr.UpdateOption(OptRelayMessage(other))
+			got2, err2 := outer.GetInnerMessage()
+			verifAssert(err2 == nil && got2 == other, "inner-message-found-after-it-was-exchanged")
+			x2, xerr := GetTransactionID(outer)
+			verifAssert(xerr == nil && x2 == other.TransactionID, "transaction-id-of-the-exchanged-inner-message")
+			back2, berr := FromBytes(outer.ToBytes())
+			verifAssert(berr == nil, "chain-decodes")
+			if berr == nil {
+				bi2, ierr := back2.GetInnerMessage()
+				verifAssert(ierr == nil && bi2 != nil && bi2.TransactionID == other.TransactionID, "inner-message-equal-after-wire")
+			}
+		}
+	}
 	verifObserve("wire", wire)
 	verifReach("end")
 }
